@@ -40,45 +40,50 @@ def run(tier):
             st += r.distinct
             tr += r.generated
             cases = [c for c in common.tlc_prints(r.out) if isinstance(c, dict) and 'chg' in c]
-            spec = {'flavour': flavour, 'year': year, 'cases': [{'I': I, 'H': c['H'], 'chg': c['chg'], 'vals': c['vals'], 'fast': (k % 97 != 0)} for k, c in enumerate(cases)]}
-            sp = os.path.join(work, 'cases_%s_%d_%d.json' % (flavour, I, year))
-            op = os.path.join(work, 'out_%s_%d_%d.json' % (flavour, I, year))
-            json.dump(spec, open(sp, 'w'))
-            rc, out, err, _ = common.run_cmd([common.PY, DRV, 'replay', sp, op], env=env, timeout=3000)
-            if rc != 0:
-                chk.violation('%s:replay-crash' % flavour, 'generator driver failed: %s' % err[-1200:], {'stderr': err[-2500:]})
-                continue
-            res = json.load(open(op))['results']
-            for c, got in zip(cases, res):
-                ncases += 1
-                key = '%s:I=%d' % (flavour, I)
-                rep = {'flavour': flavour, 'I': I, 'H': c['H'], 'changes': c['chg'], 'values': c['vals'], 'model': {'recorded': c['recorded'], 'items': c['items']}, 'code': got}
-                if 'error' in got:
-                    chk.violation(key + ':exception', 'the real generator raised %s on step function changes=%s values=%s' % (got['error'], c['chg'], c['vals']), rep)
+            # the abstract values are rendered as minutes east of UTC as they stand, and (first configuration) as offsets on the
+            # two sides of the date line: <<0, 0>> and <<60, 60>> become -10:00 and +14:00 with the same DST offset, i.e. a
+            # change of the UTC offset by exactly one day; every equality between values the model relies on is preserved
+            renderings = [(None, '')] + ([({'0,0': [-600, 60], '60,60': [840, 60], '0,30': [-600, 30]}, ':dateline')] if (I, year) == configs[0] else [])
+            for vmap, vtag in renderings:
+                spec = {'flavour': flavour, 'year': year, 'cases': [dict({'I': I, 'H': c['H'], 'chg': c['chg'], 'vals': c['vals'], 'fast': (k % 97 != 0)}, **({'map': vmap} if vmap else {})) for k, c in enumerate(cases)]}
+                sp = os.path.join(work, 'cases_%s_%d_%d%s.json' % (flavour, I, year, vtag.replace(':', '_')))
+                op = os.path.join(work, 'out_%s_%d_%d%s.json' % (flavour, I, year, vtag.replace(':', '_')))
+                json.dump(spec, open(sp, 'w'))
+                rc, out, err, _ = common.run_cmd([common.PY, DRV, 'replay', sp, op], env=env, timeout=3000)
+                if rc != 0:
+                    chk.violation('%s:replay-crash' % flavour, 'generator driver failed: %s' % err[-1200:], {'stderr': err[-2500:]})
                     continue
-                if got['recorded'] != [list(x) for x in c['recorded']]:
-                    chk.violation(key + ':transitions', 'step function changes=%s values=%s (interval %d, range end %d): the real _find_transitions records %s, the model %s' % (c['chg'], c['vals'], I, c['H'], got['recorded'], c['recorded']), rep)
-                    continue
-                mi = sorted([t, tag] for t, tag in c['items'])
-                gi = sorted([t, tag] for t, tag, _o, _d in got['items'])
-                if mi != gi:
-                    chk.violation(key + ':items', 'step function changes=%s values=%s: items %s, the model %s' % (c['chg'], c['vals'], gi, mi), rep)
-                    continue
-                # each item's fields are the step function's value at its instant
-                for t, tag, off, dst in got['items']:
-                    n = len([x for x in c['chg'] if x <= t])
-                    if [off, dst] != list(c['vals'][n]):
-                        chk.violation(key + ':item-fields', 'item at tick %d carries offsets %s, the library value there is %s' % (t, [off, dst], c['vals'][n]), rep)
-                        break
-            if flavour == 'pytz' and I == 5:
-                chk.sample({'model_case': {k: cases[len(cases) // 2][k] for k in ('I', 'H', 'chg', 'vals', 'recorded', 'items', 'all', 'env')}})
+                res = json.load(open(op))['results']
+                for c, got in zip(cases, res):
+                    ncases += 1
+                    key = '%s:I=%d%s' % (flavour, I, vtag)
+                    rep = {'flavour': flavour, 'I': I, 'H': c['H'], 'changes': c['chg'], 'values': c['vals'], 'model': {'recorded': c['recorded'], 'items': c['items']}, 'code': got}
+                    if 'error' in got:
+                        chk.violation(key + ':exception', 'the real generator raised %s on step function changes=%s values=%s' % (got['error'], c['chg'], c['vals']), rep)
+                        continue
+                    if got['recorded'] != [list(x) for x in c['recorded']]:
+                        chk.violation(key + ':transitions', 'step function changes=%s values=%s (interval %d, range end %d): the real _find_transitions records %s, the model %s' % (c['chg'], c['vals'], I, c['H'], got['recorded'], c['recorded']), rep)
+                        continue
+                    mi = sorted([t, tag] for t, tag in c['items'])
+                    gi = sorted([t, tag] for t, tag, _o, _d in got['items'])
+                    if mi != gi:
+                        chk.violation(key + ':items', 'step function changes=%s values=%s: items %s, the model %s' % (c['chg'], c['vals'], gi, mi), rep)
+                        continue
+                    # each item's fields are the step function's value at its instant
+                    for t, tag, off, dst in got['items']:
+                        n = len([x for x in c['chg'] if x <= t])
+                        if [off, dst] != list(c['vals'][n]):
+                            chk.violation(key + ':item-fields', 'item at tick %d carries offsets %s, the library value there is %s' % (t, [off, dst], c['vals'][n]), rep)
+                            break
+                if flavour == 'pytz' and I == 5:
+                    chk.sample({'model_case': {k: cases[len(cases) // 2][k] for k in ('I', 'H', 'chg', 'vals', 'recorded', 'items', 'all', 'env')}})
     # ---- 2. real zones of the installed libraries: completeness against the library's own transition table, item fidelity
     ranges = [(2000, 2038, 22), (2005, 2010, 24), (2000, 2006, 48), (2009, 2012, 36), (2000, 2004, 22), (2004, 2006, 22)] if tier == 'quick' else [(2000, 2038, 22), (2005, 2010, 24), (2000, 2020, 6), (2010, 2038, 48), (2000, 2038, 1), (2000, 2006, 36), (2000, 2004, 22), (2004, 2006, 22), (2011, 2013, 12)]
     import pytz
     zones_by = {'pytz': sorted(pytz.all_timezones)}
     zl = os.path.join(common.REPO, 'tools', 'compare_pytz', 'zones.txt')
     dz = [l.strip() for l in open(zl) if l.strip() and not l.startswith('#')]
-    zones_by['dateutil'] = dz
+    zones_by['dateutil'] = sorted(set(dz) | set(pytz.all_timezones))      # (the repository's list has only the zones of its basic database: no zone that crossed the date line)
     nz = 0
     nchanges = 0
     rendered = {}
